@@ -283,8 +283,13 @@ class SnmpSession(object):
             SnmpError: On other SNMP-related errors.
         """
 
+        # Materialize once: the sender may be called again
+        # when the first attempt finds the socket buffer full,
+        # and `oids` may be a one-shot iterator
+        oid_list = list(oids)
+
         def sender() -> None:
-            self._sock.send_get_many(list(oids))
+            self._sock.send_get_many(oid_list)
 
         await self._send(sender)
         return await self._recv(self._sock.recv_get_many)
